@@ -239,7 +239,7 @@ Definition lib_pure (fn:libfn) (args:list V) : option V :=
   | LOpNot, [a] => option_map (fun r => mkBool ops (negb r)) (asBool ops a)
   | LNewTuple2, [a; b] => Some (mkTuple ops [a; b])
   | LNewTuple3, [a; b; c] => Some (mkTuple ops [a; b; c])
-  | LDestr2, [p] => match asTuple ops p with Some [a; b] => Some (mkMulti ops [a; b]) | _ => None end
+  | LDestr2, [p] | LDestr, [p] => match asTuple ops p with Some [a; b] => Some (mkMulti ops [a; b]) | _ => None end
   | LDestr3, [p] => match asTuple ops p with Some [a; b; c] => Some (mkMulti ops [a; b; c]) | _ => None end
   | LSInterP, f :: vs =>
       match asStr ops f, all_some (map to_s vs) with
